@@ -239,7 +239,7 @@ func Run(s *sim.Sim, res *runner.Result, mode Mode) {
 			if r.rejectName != "" {
 				acts = append(acts, sim.Action{Key: "the API server starts/stops rejecting " + r.rejectName, Weight: 1, Run: r.toggleReject})
 			}
-			acts = append(acts, sim.Action{Key: "somebody deletes a package CRD", Weight: 1, Run: func() { r.deleteObjectOutOfBand(t) }})
+			acts = append(acts, sim.Action{Key: "somebody deletes a package CRD", Weight: 3, Run: func() { r.deleteObjectOutOfBand(t) }})
 			for _, p := range r.pkgs {
 				if p.Manual {
 					p := p
